@@ -7,9 +7,11 @@ from concurrent.futures import ThreadPoolExecutor
 import vlib
 
 
-def child(mode, case, timeout):
+def child(mode, case, timeout, pool=0):
     arg = json.dumps(case)
     env = dict(os.environ, RUST_BACKTRACE="0")
+    if pool:
+        env["RAYON_NUM_THREADS"] = str(pool)      # the size of the ambient rayon pool is the caller's choice (Progress!Slots)
     try:
         r = subprocess.run([vlib.BIN, "c10", mode, arg], stdout=subprocess.PIPE, stderr=subprocess.DEVNULL, text=True,
                            timeout=timeout, env=env, preexec_fn=vlib.limit_memory)
@@ -38,6 +40,12 @@ def run(ctx):
         for cfg in ("Progress_t2.cfg", "Progress_t3.cfg"):
             ctx.require_ok(ctx.tlc("Progress", cfg=cfg, workers=8, timeout=3000), cfg)
     ctx.tlc("Progress", cfg="Progress_neg.cfg", workers=4, expect_violation="Termination")
+    # execution resources: chains as jobs of a pool of 1 / 2 executors (the caller's rayon pool); termination must not depend
+    # on its size because the reporter has a thread of its own -- the reporter as a pool job on a 1-executor pool is the
+    # negative control (with 2 executors even that terminates: Progress_pool2rep)
+    for cfg in ("Progress_pool1.cfg", "Progress_pool2.cfg", "Progress_pool2rep.cfg"):
+        ctx.require_ok(ctx.tlc("Progress", cfg=cfg, workers=4, timeout=3000), cfg)
+    ctx.tlc("Progress", cfg="Progress_negpool.cfg", workers=2, expect_violation="Termination")
     # the reporter's bookkeeping for chain counts beyond TLC's reach: Apalache proves IndInv inductive (Init => IndInv,
     # IndInv /\ Next => IndInv', IndInv => ExitOnlyWhenAllFinal /\ CountOnce /\ bars full while chains wait) on the set
     # abstraction that Progress!BookAsSets ties to the bar-by-bar bookkeeping; dropping bars is the negative control
@@ -67,23 +75,27 @@ def run(ctx):
     slowf = [c for c in faults if c["slow"] and c["drop_at"] <= c["nc"] + c["nd"] - 3]   # >= 3 slow transitions after the drop: a periodic send fails
     fastf = [c for c in faults if not c["slow"]]
     pick_f = faults if thorough else rnd.sample(fastf, 6) + rnd.sample(slowf, 3)
-    jobs = [("schedule", c, 60) for c in pick_s] + [("config", c, 120) for c in pick_c] + [("fault", c, 30) for c in pick_f]
+    jobs = [("schedule", c, 60, 0) for c in pick_s] + [("config", c, 120, 0) for c in pick_c] + [("fault", c, 30, 0) for c in pick_f]
+    # the same protocol on a caller-chosen rayon pool of 1 and 2 workers: every sampler kind / precision, a schedule, a fault
+    small = [c for c in pick_c if c["nc"] < 257 and c["n"] <= 11]
+    jobs += [("config", c, 120, 1) for c in small] + [("config", c, 120, 2) for c in small[::2]]
+    jobs += [("schedule", pick_s[0], 60, 1), ("schedule", pick_s[-1], 60, 2), ("fault", pick_f[0], 30, 1)]
     with ThreadPoolExecutor(max_workers=5) as ex:
         results = list(ex.map(lambda j: child(*j), jobs))
     traces = []
-    for (mode, c, _), res in zip(jobs, results):
+    for (mode, c, _, pool), res in zip(jobs, results):
         ctx.cov["evaluations"] += 1
         if mode == "schedule":
             key = "progress-schedule waits=%s nc=%d nd=%d" % (c["waits"], c["nc"], c["nd"])
             if not res["why"]:
                 traces.append((c, res["events"]))
         elif mode == "config":
-            key = "progress-config %s %s%s" % (c["kind"], c["ty"], " (used sampler)" if c.get("pre") else "")
+            key = "progress-config %s %s%s%s" % (c["kind"], c["ty"], " (used sampler)" if c.get("pre") else "", " rayon pool of %d" % pool if pool else "")
         else:
             key = "progress-fault drop_at=%d nc=%d nd=%d%s" % (c["drop_at"], c["nc"], c["nd"], " slow" if c["slow"] else "")
         for w in res["why"]:
             detail = "%s (n=%s nc=%s nd=%s): %s" % (key, c.get("n", len(c.get("waits", []))), c["nc"], c["nd"], w[:300])
-            ctx.violation(key, detail, {"direction": "replay", "spec": "Gen_Progress", "mode": mode, "case": c, "why": w})
+            ctx.violation(key, detail, {"direction": "replay", "spec": "Gen_Progress", "mode": mode, "case": c, "why": w, "pool": pool})
         if not res["why"]:
             ctx.cov["traces_validated_against_impl"] += 1
             if mode != "fault" and c.get("n", 7) > 5:
@@ -111,7 +123,8 @@ def run(ctx):
         ctx.selftest("trace: final bookkeeping event with a finished count one too low", not okc)
     ctx.cov["rule"] = ("Progress.tla: all interleavings of N workers and the reporter with receiver crash, liveness under weak fairness (dropping bars "
                        "instead of recycling them is the negative control); ProgressInd.tla: inductive invariant of the bookkeeping proved by Apalache for "
-                       "N = 6 / 3 bars (thorough: N = 10 / 5 bars; measured once for N = 16); replay: completion schedules of 7 chains over 5 bars, sampler x precision x "
+                       "N = 6 / 3 bars (thorough: N = 10 / 5 bars; measured once for N = 16); chains as jobs of a pool of 1 / 2 executors (reporter on the pool is the "
+                       "negative control); replay (default pool, and rayon pools of 1 and 2 workers): completion schedules of 7 chains over 5 bars, sampler x precision x "
                        "chain-count configurations, receiver dropped at every point; non-trivial = cases with more chains than bars / mid-run drops")
     ctx.cov["exhaustive"] = False
 
@@ -123,7 +136,7 @@ def replay(ctx, path):
         if not ok:
             ctx.violation(body["key"], body["what"], body)
     else:
-        res = child(body["mode"], body["case"], 120)
+        res = child(body["mode"], body["case"], 120, body.get("pool", 0))
         ctx.cov["evaluations"] += 1
         for w in res["why"]:
             ctx.violation(body["key"], body["what"], body)
